@@ -212,7 +212,8 @@ pub fn run(g: &mut Global) {
         &move |i| {
             let kind = sk[(i / 4097) as usize];
             let n = (i % 4097) as usize;
-            Case { cfg: Cfg { kind, p: vec![n], m: X(if kind.has_mult() { MULTS[n % 7] } else { 0.0 }) }, later: vec![], reset_at: None }
+            // a short later history with a reset in it: accessors and Display must survive both
+            Case { cfg: Cfg { kind, p: vec![n], m: X(if kind.has_mult() { MULTS[n % 7] } else { 0.0 }) }, later: vec![letter(2.0), letter(5.0), letter(3.0)], reset_at: Some(1 + n % 2) }
         },
         &check,
     );
@@ -232,7 +233,10 @@ pub fn run(g: &mut Global) {
             } else {
                 Cfg { kind: Kind::Obv, p: vec![], m: X(0.0) }
             };
-            Case { cfg, later: vec![letter(1.0), letter(2.0)], reset_at: None }
+            // closes 4, -4, 3, -3: exponential averages cancel to exactly 0 for some periods (a division by a zero
+            // average must not disturb the parameters), with a reset in the middle for every other tuple
+            let ex = |v: f64| Inp { bar: crate::adapter::RawBar { o: v, h: v.abs() + 1.0, l: -v.abs() - 1.0, c: v, v: 5.0 }, scalar: true };
+            Case { cfg, later: vec![ex(4.0), ex(-4.0), ex(3.0), ex(-3.0), ex(1.5)], reset_at: if i % 2 == 0 { Some(3) } else { None } }
         },
         &check,
     );
